@@ -139,7 +139,8 @@ def setExtension (p : Path) (ext : Name) : Path :=
 /-! ### src/utils/mod.rs: normalize -/
 
 /-- one iteration of the `for component in components` loop; the stack `st` is `ret` reversed
-(head = last pushed). The last case pops whatever is on top — including `RootDir` (F16). -/
+(head = last pushed). `..` on top of `RootDir` leaves the root in place (the parent of the
+root is the root; this was F16 before the fix), otherwise it pops a name. -/
 def normStep (keep : Bool) (st : List Comp) (c : Comp) : List Comp :=
   match c with
   | .root => .root :: st
@@ -150,21 +151,14 @@ def normStep (keep : Bool) (st : List Comp) (c : Comp) : List Comp :=
     | [] => [.parent]
     | .cur :: t => .parent :: t
     | .parent :: t => .parent :: .parent :: t
-    | _ :: t => t
+    | .root :: t => .root :: t
+    | .normal _ :: t => t
 
 def normalize (keep : Bool) (p : Path) : Path :=
   if p = [] then []
   else
     let st := p.foldl (normStep keep) []
     if st = [] then [.cur] else st.reverse
-
-/-- the partial theorems' hypothesis: no `..` is processed while `RootDir` is on top of `ret` -/
-def rootPopFree (keep : Bool) : List Comp → Path → Bool
-  | _, [] => true
-  | st, c :: cs =>
-    !(c == .parent && st.head? == some .root) && rootPopFree keep (normStep keep st c) cs
-
-def H15 (keep : Bool) (p : Path) : Bool := rootPopFree keep [] p
 
 /-! ### src/rules/require/path_iterator.rs -/
 
